@@ -105,27 +105,34 @@ Theorem C03_inline :
 Proof. exact inline_correct. Qed.
 Print Assumptions C03_inline.
 
-(* NOT PROVED (kept visible): the same for EVERY admissible naming of the inliner (names pairwise different and not
-   spellable by a program), up to an injective renaming rho of the generated names ([expands_alike] in
-   Proofs/MacroProps.v: the inlined program expands to map (rename rho) ops, rho is injective on the declared labels,
-   fixes user names, and the label tables agree through rho on every name that is not a macro-start label).
-   The campaign evaluates this on the real assembler with the flat names of harness/fjverif/inliner.py. *)
-Definition C03_inline_any_naming_statement : Prop :=
-  forall fresh w D depth ops lbls P,
-    admissible fresh -> wf_tree D = true ->
+(* Any admissible naming.  The textual inliner may name the local labels of the expansions as it likes, provided the
+   naming is admissible for the program ([admissible_for] in Proofs/MacroProps.v):
+     - different (expansion, local label) pairs - over the expansion paths of D - get different names, and
+     - no generated name is reserved: a name the program writes (in an expression or as a declared label), `$`, an
+       assembler-internal label `_.wflip_area_start_<k>`, or the main macro's start label.
+   Then the inlined program P is macro free and the preprocessor expands it to ops whose word VALUES under P's own
+   label table are exactly the values of the macro program's ops under the macro program's label table
+   ([eval_lop]: flip/jump/wflip words as the last assembly phase reads them - FlipJump.get_flip(labels) ... -, padding
+   counts, segment and reserve addresses).  Label NAMES differ by the one-to-one renaming of generated names; they
+   reach the image only through these values.  Proof: C03_inline for the code's own naming, then invariance of the
+   expansion of macro-free programs under a one-to-one correspondence of names (inline_rel, run_ops_rel, Nt_biinj). *)
+Theorem C03_inline_any_naming :
+  forall w D depth ops lbls fresh P,
+    wf_tree D = true -> admissible_for D fresh ->
     resolve_macros w D depth = ROk (ops, lbls) ->
     inline fresh D (N.to_nat depth) = Some P ->
-    expands_alike w depth ops lbls P.
+    Forall (fun s => stmt_primitive s = true) P /\
+    exists ops' lbls', resolve_macros w (prim_tree P) depth = ROk (ops', lbls') /\
+                       map (eval_lop lbls) ops = map (eval_lop lbls') ops'.
+Proof. exact inline_any_naming. Qed.
+Print Assumptions C03_inline_any_naming.
 
-(* what is proved of it: the naming the code itself uses (fresh = impl_fresh, with rho the identity) *)
-Theorem C03_inline_any_naming_partial :
-  forall w D depth ops lbls P,
-    wf_tree D = true ->
-    resolve_macros w D depth = ROk (ops, lbls) ->
-    inline impl_fresh D (N.to_nat depth) = Some P ->
-    expands_alike w depth ops lbls P.
-Proof. exact inline_correct_id_renaming. Qed.
-Print Assumptions C03_inline_any_naming_partial.
+(* the code's own naming is admissible for every well-formed tree, and so is another one (the same path rendering
+   behind a tag character no program can write) *)
+Theorem C03_admissible_namings :
+  forall D, wf_tree D = true -> admissible_for D impl_fresh /\ admissible_for D fresh_tagged.
+Proof. intros D WF. split; [exact (impl_admissible D WF) | exact (tagged_admissible D WF)]. Qed.
+Print Assumptions C03_admissible_namings.
 
 (* ---- several files --------------------------------------------------------------------------------------------------- *)
 
@@ -242,4 +249,18 @@ Example C03_rep_zero_undefined_callee :
 Proof.
   split; [vm_compute; reflexivity|]. split; [eexists; vm_compute; reflexivity|]. split; [eexists; vm_compute; reflexivity|].
   split; vm_compute; reflexivity.
+Qed.
+
+(* both namings are admissible for the example program, the inliner is defined under both, and the two inlined programs
+   differ (the theorem is not about one naming in disguise) *)
+Example C03_any_naming_satisfiable :
+  admissible_for example_tree impl_fresh /\ admissible_for example_tree fresh_tagged /\
+  (exists P1 P2, inline impl_fresh example_tree (N.to_nat 900) = Some P1 /\
+                 inline fresh_tagged example_tree (N.to_nat 900) = Some P2 /\
+                 nth 5 P1 (SLabel "" (mkpos "" "" 0)) = SLabel "f1:l21:a.b.k(1)---q" (mkpos "t2.fj" "f1" 11%N) /\
+                 nth 5 P2 (SLabel "" (mkpos "" "" 0)) = SLabel "@f1:l21:a.b.k(1)---q" (mkpos "t2.fj" "f1" 11%N)).
+Proof.
+  assert (WF : wf_tree example_tree = true) by (vm_compute; reflexivity).
+  split; [exact (impl_admissible _ WF)|]. split; [exact (tagged_admissible _ WF)|].
+  eexists _, _. split; [vm_compute; reflexivity|]. split; [vm_compute; reflexivity|]. split; reflexivity.
 Qed.
